@@ -675,4 +675,6 @@ def run(ctx):
     # "from target memory": the module is read from the first byte of its mapping (same rule instance as C08/reader-base)
     from rules import c08 as _c08rb
     _c08rb.rule_reader_base(ctx, R="C14/reader-base")
-
+    # the small accessors and pass-through wrappers the rules above look through by name return what their names say (rules/accessors.py)
+    from rules import accessors as _acc
+    _acc.rule_accessors(ctx, "C14")
